@@ -190,6 +190,14 @@ def py_tables() -> list[str]:
     sub = [f"({reg(k.name)}, {reg(b.name)}, {cN(sh)}, {cN(m)})" for k, (b, sh, m) in E.Registers._SUBREG_INFO.items()]
     out.append("Definition py_subregs_emulator : list (regname * regname * N * N) := " + clist(sub) + ".")
     out.append("Definition py_pc_mask : N := " + cN(K.PC_MASK) + ".")
+    # the width each register really has in the emulator's register file: all-ones written through Registers.set, read back
+    # through Registers.get (the masks live in code - inline tuples / sets of "address registers" - not only in REGISTER_SIZE)
+    probed = []
+    for k, _ in emu:
+        rf = E.Registers()
+        rf.set(k, 0xFFFFFFFF)
+        probed.append(f"({reg(k.name)}, {cN(rf.get(k))})")
+    out.append("Definition py_probed_masks : list (regname * N) := " + clist(probed) + ".")
     # arch.py
     from sc62015.arch import SC62015
     arch = []
